@@ -160,6 +160,8 @@ class ReqModel(LibModel):
             raise OutOfSubset("_required_variables_from_child_ of something else than the parent", node)
         st = st.clone()
         st.ghost['asked_parent'] = True
+        wt = kwargs.get('when_true', args[1] if len(args) > 1 else C(True))
+        st.ghost['asked_when'] = st.ghost.get('asked_when', []) + [wt.v if isinstance(wt, C) else '?']
         return [(st, self.new_idset(eng, st, self.req_parent))]
 
     def abstract_loop(self, eng, st, s, it, ordinal):
@@ -247,6 +249,7 @@ class SiblingMixin:
     operand's variables."""
     right_evaluated_after_left = ()        # values of when_true for which the clause is required
     right_concludes = False                # the right operand is a rule branch whose conclusions are selected (else-if)
+    own_truth = None                       # (child is left?, truth of the child) -> truth of the operator, None = not determined
 
     def on_exit(self, eng, o):
         super().on_exit(eng, o)
@@ -256,6 +259,15 @@ class SiblingMixin:
         ch = st.locals.get('child')
         wt = st.locals.get('when_true')
         is_left = (isinstance(ch, C) and ch.v is None) or (isinstance(ch, ZV) and ch.t.eq(Z.f_left(self.n)))
+        is_right = isinstance(ch, ZV) and ch.t.eq(Z.f_right(self.n))
+        if self.own_truth is not None and (is_left or is_right) and isinstance(wt, C) and st.ghost.get('asked_when'):
+            # the parent is asked what it needs for the truth value THIS operator will have - which a child's truth value
+            # does not always determine (a true left operand of a conjunction, a false left operand of a disjunction):
+            # then it must be asked without assuming one (None); asking with None is always allowed
+            mine = self.own_truth(is_left, wt.v)
+            ok = all(a is None or (mine is not None and a == mine) for a in st.ghost['asked_when'])
+            eng.oblige(st, "req/parent-is-asked-for-the-truth-value-the-operator-can-actually-have", z3.BoolVal(bool(ok)),
+                       asked=repr(st.ghost['asked_when']), own=repr(mine))
         if is_left and isinstance(wt, C) and wt.v in self.right_evaluated_after_left:
             res = st.ghost['idsets'][o.val.data['ref']]
             eng.oblige(st, "req/left-operand-key-contains-the-variables-the-right-operand-reads",
@@ -342,6 +354,9 @@ class ReqBinary(SiblingMixin, ReqModel):
     cls = 'BinaryOperator'
     props = ('C02', 'C16', 'C18')
     right_evaluated_after_left = (True, None)
+    # conjunction: false as soon as an operand is false; a true left operand leaves it open; a true right operand (the left
+    # one was true then) makes it true
+    own_truth = staticmethod(lambda is_left, t: None if t is None else (False if t is False else (None if is_left else True)))
 
 
 class ReqOr(SiblingMixin, ReqModel):
@@ -350,6 +365,9 @@ class ReqOr(SiblingMixin, ReqModel):
     props = ('C02', 'C16', 'C18', 'C12')
     right_evaluated_after_left = (False, None)
     right_concludes = True
+    # disjunction (else-if): true as soon as an operand is true; a false left operand leaves it open; a false right operand
+    # (the left one was false then) makes it false
+    own_truth = staticmethod(lambda is_left, t: None if t is None else (True if t is True else (None if is_left else False)))
     child_cases = ('none', 'left', 'right')      # precondition: the child is one of the operator's own operands
 
 
